@@ -7,22 +7,31 @@
 // fetch failures and filter updates at every phase of the rescan; one ordered
 // log judged by the reference walk.
 //
-// L2 part (full simulated network): added later into this same program.
+// L2 part (internal/c09/l2.go): the same oracle applied to the real client end
+// to end: neutrino.NewRescan(&neutrino.RescanChainSource{svc}) on the complete
+// ChainService against live simulated peers while the honest chain grows and
+// reorganises, peers drop filter / block requests and Rescan.Update is issued;
+// one child process per scenario.
 package main
 
 import (
 	"verif/internal/c09"
 	"verif/internal/evid"
+	"verif/internal/l2"
 )
 
 func main() {
 	r := evid.New("C09", "exploration")
+	if l2.IsChild() {
+		// Scenario child of the L2 part: runs one scenario and exits.
+		l2.RunScenarios(r, 0, c09.L2ChildTimeout, c09.L2Scenario)
+	}
 
 	c09.Component(r)
 
-	// l2 part added later: NewRescan(&RescanChainSource{svc}) against live
-	// simulated peers while the honest chain reorganises. It reports into
-	// the same Run; raise the floor below by its own minimum when it lands.
+	c09.L2Describe(r)
+	n := r.Pick(c09.L2QuickScenarios, c09.L2ThoroughScenarios)
+	l2.RunScenarios(r, n, c09.L2ChildTimeout, c09.L2Scenario)
 
-	r.Finish(c09.MinDistinct)
+	r.Finish(c09.MinDistinct + c09.L2MinDistinct)
 }
